@@ -22,8 +22,8 @@ import (
 func init() {
 	Register(&Prop{
 		ID:   "C09",
-		Expl: "Decides on SSA, for every synchronous static call path that starts in SwapService.OnMessageReceived (handler parameters are bound to the dispatcher's values along the path): (R1) every SendEvent/Recover on a machine that the same function did not lock in is reached only through the passing edge of a sender test applied to the dispatcher's peer parameter — isMessageSenderExpectedPeer(peer, id), a wrapper all of whose success returns lie behind it, or the inlined comparison activeSwaps[id].Data.PeerNodeId == peer — and isMessageSenderExpectedPeer itself returns only false or that comparison; (R2) the machine that receives the event is the activeSwaps entry looked up under exactly the id whose sender was tested (same message object, same SwapId field); (R3) in every function on such a path that locks a new swap in (the two request handlers) each lockSwap/SendEvent is preceded on all paths by a test of an existence oracle keyed by the requested id for the persistent store (Store.GetData or a pass-through wrapper such as GetSwap; tested through err == nil, err ==/!= ErrDataNotAvailable, errors.Is, or result != nil) and for the live map (GetActiveSwap, an activeSwaps lookup, or a not-present test inside lockSwap before the insert whose present edge returns an error), whose may-exist edge cannot reach them; (R4) every EventContext.ApplyToSwapData call is dominated by the success edge of the next-state lookup (getNextState, or EventIsValid when it can only return true behind getNextState) for the event delivered with the context, on the same machine; (R5) no function reachable from OnMessageReceived outside SendEvent/Recover stores into a SwapData / SwapStateMachine it did not allocate itself or calls Store.UpdateData. Quantifier: all message types (every call site in the dispatcher), all handlers, all CFG paths.",
-		NotD: "Races between an existence test made in a handler and the insert in lockSwap (a test in the handler is accepted like one inside lockSwap); that bboltStore.GetData reports every stored id; closures and dynamic calls inside handlers (only static calls are followed; a closure that reaches SendEvent/lockSwap makes the check undecided); the messenger implementations that invoke OnMessageReceived; whether Validate implementations are read-only; events injected by timers, chain watchers and payment notifications (not peer messages).",
+		Expl: "Decides on SSA, for every synchronous static call path that starts in SwapService.OnMessageReceived (handler parameters are bound to the dispatcher's values along the path): (R1) every SendEvent/Recover on a machine that the same function did not lock in is reached only through the passing edge of a sender test applied to the dispatcher's peer parameter — isMessageSenderExpectedPeer(peer, id), a wrapper or local closure (with the peer as parameter or captured variable) all of whose success returns lie behind it, or the inlined comparison activeSwaps[id].Data.PeerNodeId == peer — and isMessageSenderExpectedPeer itself returns only false or that comparison; (R2) the machine that receives the event is the activeSwaps entry looked up under exactly the id whose sender was tested (same message object, same SwapId field); (R3) in every function on such a path that locks a new swap in (the two request handlers) each lockSwap/SendEvent is preceded on all paths by a test of an existence oracle keyed by the requested id for the persistent store (Store.GetData, a pass-through wrapper such as GetSwap, or a boolean predicate over the id computed from such tests; tested through err == nil, err ==/!= ErrDataNotAvailable, errors.Is, or result != nil) and for the live map (GetActiveSwap, an activeSwaps lookup, or a not-present test inside lockSwap before the insert whose present edge returns an error), whose may-exist edge cannot reach them; (R4) every EventContext.ApplyToSwapData call is dominated by the success edge of the next-state lookup (getNextState — found as the method that looks its event parameter up in an Events map — or any method that succeeds only behind it, e.g. EventIsValid) for the event delivered with the context, on the same machine; when the apply sits in a wrapper, at every call of the wrapper; (R5) no function reachable from OnMessageReceived outside SendEvent/Recover stores into a SwapData / SwapStateMachine it did not allocate itself or calls Store.UpdateData. Quantifier: all message types (every call site in the dispatcher), all handlers, all CFG paths.",
+		NotD: "Races between an existence test made in a handler and the insert in lockSwap (a test in the handler is accepted like one inside lockSwap); that bboltStore.GetData reports every stored id; dynamic calls inside handlers (only static calls and directly called local closures are followed; a closure that itself reaches SendEvent/lockSwap makes the check undecided); a sender test, existence test or acceptance test of a shape that is not understood makes the obligation undecided (exit 2), a VIOLATION is reported only when no condition on the peer / no test of the oracle / no lookup exists on the path or the wrong thing is positively compared; the messenger implementations that invoke OnMessageReceived; whether Validate implementations are read-only; events injected by timers, chain watchers and payment notifications (not peer messages).",
 		Run:  runC09,
 	})
 }
@@ -53,7 +53,12 @@ type c09Ctx struct {
 	errNoData, errNoSwap *ssa.Global
 
 	oracles map[*ssa.Function]c09Oracle // functions whose passing result implies the sender test
-	lockers map[*ssa.Function]int       // lockSwap and wrappers that succeed only behind its success edge -> machine parameter index
+
+	acceptFns map[*ssa.Function]bool // getNextState and the methods that succeed only behind it
+
+	condVals map[string]map[ssa.Value]bool // kind -> boolean value -> "true means the id may be known"
+	preds    map[string]map[*ssa.Function]*c09Pred
+	lockers  map[*ssa.Function]int // lockSwap and wrappers that succeed only behind its success edge -> machine parameter index
 
 	// results of the walk
 	guardedSites int
@@ -88,12 +93,30 @@ type c09Frame struct {
 // and the id, and the index of its bool result (-1: success = nil error).
 type c09Oracle struct {
 	si, ii, bi int
+	fv         int // >= 0: the sender is the captured variable FreeVars[fv] of a closure (si == -1)
+}
+
+// peerIn: the value that denotes the sender inside oracle function g.
+func (o c09Oracle) peerIn(g *ssa.Function) ssa.Value {
+	if o.si >= 0 {
+		return g.Params[o.si]
+	}
+	return g.FreeVars[o.fv]
+}
+
+// c09Pred is a boolean existence predicate over an id: parameter pi is the id,
+// result bi is true when the id may be known (may) or when it is not known (!may).
+type c09Pred struct {
+	pi, bi int
+	may    bool
+	ok     bool
 }
 
 type c09Guard struct {
-	id   c09Org // the id that was tested, in root terms
-	desc string
-	call *ssa.Call // lookup call of the inline variant (its machine may be reused)
+	unsure string // non-empty: something that looks like a sender test passed but could not be verified
+	id     c09Org // the id that was tested, in root terms
+	desc   string
+	call   *ssa.Call // lookup call of the inline variant (its machine may be reused)
 }
 
 func runC09(c *an.Check) {
@@ -105,7 +128,8 @@ func runC09(c *an.Check) {
 
 	w := c.W
 	x := &c09Ctx{c: c, w: w, creators: map[*ssa.Function]*c09Frame{}, visitedR5: map[*ssa.Function]bool{},
-		lookupFns: map[*ssa.Function]int{}, storeWrappers: map[*ssa.Function]int{}, oracles: map[*ssa.Function]c09Oracle{}}
+		lookupFns: map[*ssa.Function]int{}, storeWrappers: map[*ssa.Function]int{}, oracles: map[*ssa.Function]c09Oracle{},
+		condVals: map[string]map[ssa.Value]bool{"store": {}, "live": {}}, preds: map[string]map[*ssa.Function]*c09Pred{"store": {}, "live": {}}}
 	if !needEffects(c, c09Apply, c09StoreGet, c09StoreUpd) {
 		return
 	}
@@ -120,11 +144,18 @@ func runC09(c *an.Check) {
 	x.root = need("(*SwapService).OnMessageReceived")
 	x.sendEvent = need("(*SwapStateMachine).SendEvent")
 	x.recoverFn = need("(*SwapStateMachine).Recover")
-	x.lockSwap = need("(*SwapService).lockSwap")
 	x.idString = need("(*SwapId).String")
-	x.getNext = need("(*SwapStateMachine).getNextState")
-	x.senderOracle = w.Func("swap", "(*SwapService).isMessageSenderExpectedPeer") // optional: the test may be inlined
-	x.eventValid = w.Func("swap", "(*SwapStateMachine).EventIsValid")             // optional
+	// unexported helpers are found by what they do, not by their name
+	x.lockSwap = c09FindGate(w)
+	if x.lockSwap == nil {
+		c.Anchor("no function of package swap performs `SwapService.activeSwaps[param] = param` (lockSwap)")
+	}
+	x.getNext = c09FindNextState(w)
+	if x.getNext == nil {
+		c.Anchor("no method of SwapStateMachine looks its EventType parameter up in a swap.Events map (getNextState)")
+	}
+	x.senderOracle = c09FindSenderOracle(w)                           // optional: the test may be inlined
+	x.eventValid = w.Func("swap", "(*SwapStateMachine).EventIsValid") // optional
 	x.tSM, x.tData, x.tId = w.Named("swap", "SwapStateMachine"), w.Named("swap", "SwapData"), w.Named("swap", "SwapId")
 	if x.tSM == nil || x.tData == nil || x.tId == nil {
 		c.Anchor("types swap.SwapStateMachine / SwapData / SwapId do not resolve")
@@ -140,6 +171,7 @@ func runC09(c *an.Check) {
 		return
 	}
 	x.findOracles()
+	x.addLookupWrappers()
 	x.findLockers()
 	if !c.AtLeast("C09", "functions that look a machine up in activeSwaps by a parameter", len(x.lookupFns), 1) {
 		return
@@ -161,6 +193,114 @@ func runC09(c *an.Check) {
 	x.ruleR3()
 	x.ruleR4()
 	x.ruleR5()
+}
+
+// c09FindGate: the unique production function of package swap that inserts a
+// parameter under a parameter key into SwapService.activeSwaps.
+func c09FindGate(w *an.World) *ssa.Function {
+	var found []*ssa.Function
+	for _, fn := range prodFuncs(w) {
+		if w.FnRel(fn) != "swap" {
+			continue
+		}
+		for _, b := range fn.Blocks {
+			for _, in := range b.Instrs {
+				if mu, ok := in.(*ssa.MapUpdate); ok && c09IsActiveMap(mu.Map) {
+					_, kp := c09Strip(mu.Key).(*ssa.Parameter)
+					_, vp := c09Strip(mu.Value).(*ssa.Parameter)
+					if kp && vp {
+						found = append(found, fn)
+					}
+				}
+			}
+		}
+	}
+	if len(found) == 1 {
+		return found[0]
+	}
+	if fn := w.Func("swap", "(*SwapService).lockSwap"); fn != nil && fn.Blocks != nil {
+		return fn
+	}
+	return nil
+}
+
+// c09FindNextState: the method of SwapStateMachine with one EventType parameter
+// that looks this parameter up (comma-ok) in a swap.Events map.
+func c09FindNextState(w *an.World) *ssa.Function {
+	var found []*ssa.Function
+	for _, fn := range prodFuncs(w) {
+		if w.FnRel(fn) != "swap" || fn.Signature.Recv() == nil || len(fn.Params) != 2 {
+			continue
+		}
+		if n := an.NamedOf(fn.Params[0].Type()); n == nil || n.Obj().Name() != "SwapStateMachine" {
+			continue
+		}
+		for _, b := range fn.Blocks {
+			for _, in := range b.Instrs {
+				if lk, ok := in.(*ssa.Lookup); ok && lk.CommaOk {
+					if n := an.NamedOf(lk.X.Type()); n != nil && n.Obj().Name() == "Events" && c09Strip(lk.Index) == ssa.Value(fn.Params[1]) {
+						found = append(found, fn)
+					}
+				}
+			}
+		}
+	}
+	if len(found) == 1 {
+		return found[0]
+	}
+	if fn := w.Func("swap", "(*SwapStateMachine).getNextState"); fn != nil && fn.Blocks != nil {
+		return fn
+	}
+	return nil
+}
+
+// c09FindSenderOracle: the function of package swap with parameters (string,
+// *SwapId) and a bool first result that reads SwapData.PeerNodeId.
+func c09FindSenderOracle(w *an.World) *ssa.Function {
+	var found []*ssa.Function
+	for _, fn := range prodFuncs(w) {
+		if w.FnRel(fn) != "swap" || fn.Parent() != nil {
+			continue
+		}
+		res := fn.Signature.Results()
+		if res.Len() < 1 {
+			continue
+		}
+		if b, ok := res.At(0).Type().(*types.Basic); !ok || b.Kind() != types.Bool {
+			continue
+		}
+		nStr, nId := 0, 0
+		for i, p := range fn.Params {
+			if i == 0 && fn.Signature.Recv() != nil {
+				continue
+			}
+			if b, ok := p.Type().(*types.Basic); ok && b.Kind() == types.String {
+				nStr++
+			} else if pt, ok := p.Type().(*types.Pointer); ok {
+				if n, ok := pt.Elem().(*types.Named); ok && n.Obj().Name() == "SwapId" {
+					nId++
+				}
+			}
+		}
+		if nStr != 1 || nId != 1 {
+			continue
+		}
+		reads := false
+		for _, b := range fn.Blocks {
+			for _, in := range b.Instrs {
+				if fa, ok := in.(*ssa.FieldAddr); ok && strings.HasPrefix(an.FieldName(fa.X.Type(), fa.Field), "SwapData.") {
+					reads = true
+				}
+			}
+		}
+		if reads {
+			found = append(found, fn)
+		}
+	}
+	if len(found) == 1 {
+		return found[0]
+	}
+	return w.Func("swap", "(*SwapService).isMessageSenderExpectedPeer")
 }
 
 // ---- small value helpers ---------------------------------------------------------
@@ -258,6 +398,15 @@ func c09AllocStores(al *ssa.Alloc) int {
 	return n
 }
 
+func c09AllocStored(al *ssa.Alloc) ssa.Value {
+	for _, r := range *al.Referrers() {
+		if st, ok := r.(*ssa.Store); ok && st.Addr == al {
+			return st.Val
+		}
+	}
+	return nil
+}
+
 // origin computes the origin of v inside its own function.
 func (x *c09Ctx) origin(v ssa.Value) (c09Org, bool) {
 	v = c09Strip(v)
@@ -287,9 +436,18 @@ func (x *c09Ctx) origin(v ssa.Value) (c09Org, bool) {
 				case *ssa.Alloc:
 					// a local variable whose address is taken (var msg *T; Unmarshal(&msg)):
 					// all loads denote the same object when it is assigned at most once
-					if c09AllocStores(a) > 1 {
-						return c09Org{}, false
+					switch c09AllocStores(a) {
+					case 0:
+						return c09Org{Root: a, Chain: strings.Join(parts, ">")}, true
+					case 1:
+						// a variable captured by a closure is spilled to a cell and
+						// assigned once: it denotes the stored value
+						v = c09AllocStored(a)
+						continue
 					}
+					return c09Org{}, false
+				case *ssa.FreeVar:
+					// the cell of a captured variable
 					return c09Org{Root: a, Chain: strings.Join(parts, ">")}, true
 				}
 			}
@@ -421,6 +579,39 @@ func (x *c09Ctx) findOracles() {
 	}
 }
 
+// addLookupWrappers: a function that returns result #0 of a lookup function
+// called with one of its own parameters as key is a lookup function as well.
+func (x *c09Ctx) addLookupWrappers() {
+	for round := 0; round < 2; round++ {
+		for _, g := range prodFuncs(x.w) {
+			if _, done := x.lookupFns[g]; done || x.w.FnRel(g) != "swap" || g == x.lockSwap {
+				continue
+			}
+			for _, ci := range an.Calls(g) {
+				k, ok := ci.(*ssa.Call)
+				if !ok {
+					continue
+				}
+				ki, isL := x.lookupFns[k.Common().StaticCallee()]
+				if !isL || ki >= len(k.Call.Args) {
+					continue
+				}
+				p, isP := c09Strip(k.Call.Args[ki]).(*ssa.Parameter)
+				if !isP || p.Parent() != g {
+					continue
+				}
+				for _, r := range an.Returns(g) {
+					for _, rv := range r.Results {
+						if ex, isEx := c09Strip(rv).(*ssa.Extract); isEx && ex.Tuple == ssa.Value(k) && ex.Index == 0 {
+							x.lookupFns[g] = c09ParamIndex(p)
+						}
+					}
+				}
+			}
+		}
+	}
+}
+
 // findLockers: lockSwap plus the functions that pass their machine parameter to
 // a locker and can return a nil error only behind that call's success edge.
 func (x *c09Ctx) findLockers() {
@@ -472,6 +663,12 @@ func (x *c09Ctx) findLockers() {
 // machineKey: the id under which machine value m was looked up in activeSwaps.
 func (x *c09Ctx) machineKey(fr *c09Frame, m ssa.Value) (c09Org, *ssa.Call, bool) {
 	m = c09Strip(m)
+	// a machine handed to a helper: the caller looked it up
+	if p, isP := m.(*ssa.Parameter); isP && fr != nil && fr.parent != nil && fr.site != nil && p.Parent() == fr.fn {
+		if i := c09ParamIndex(p); i >= 0 && i < len(fr.site.Common().Args) {
+			return x.machineKey(fr.parent, fr.site.Common().Args[i])
+		}
+	}
 	var tuple ssa.Value = m
 	if ex, ok := m.(*ssa.Extract); ok {
 		if ex.Index != 0 {
@@ -558,9 +755,18 @@ func (x *c09Ctx) checkSenderOracle() {
 			continue
 		}
 		v := c09Strip(r.Results[0])
+		neg := false
+		for {
+			u, isNot := v.(*ssa.UnOp)
+			if !isNot || u.Op != token.NOT {
+				break
+			}
+			neg = !neg
+			v = c09Strip(u.X)
+		}
 		switch y := v.(type) {
 		case *ssa.Const:
-			if y.Value != nil && y.Value.String() == "false" {
+			if y.Value != nil && (y.Value.String() == "false") != neg {
 				continue
 			}
 			// constant true: must be under the equality
@@ -574,17 +780,54 @@ func (x *c09Ctx) checkSenderOracle() {
 				nTrue++
 				continue
 			}
-			verdict, detail = "bad", "returns true at "+w.Pos(r.Pos())+" without comparing the looked-up machine's PeerNodeId with the sender"
+			// is anything known about the sender at this return at all?
+			mentions := false
+			for _, f := range w.FactsDominatingBlock(r.Block()) {
+				if f.Cond != nil && x.mentions(f.Cond, fn.Params[si], 0, map[ssa.Value]bool{}) {
+					mentions = true
+				}
+			}
+			if mentions {
+				if verdict == "ok" {
+					verdict, detail = "unknown", "returns true at "+w.Pos(r.Pos())+" under a condition on the sender that is not understood"
+				}
+			} else {
+				verdict, detail = "bad", "returns true at "+w.Pos(r.Pos())+" without comparing the looked-up machine's PeerNodeId with the sender"
+			}
 		case *ssa.BinOp:
-			if y.Op == token.EQL && isPair(y.X, y.Y) {
+			op := y.Op
+			if neg && op == token.EQL {
+				op = token.NEQ
+			} else if neg && op == token.NEQ {
+				op = token.EQL
+			}
+			if op == token.EQL && isPair(y.X, y.Y) {
 				nTrue++
 				continue
 			}
-			if y.Op == token.NEQ && isPair(y.X, y.Y) {
+			if op == token.NEQ && isPair(y.X, y.Y) {
 				verdict, detail = "bad", "returns PeerNodeId != sender (inverted test) at "+w.Pos(r.Pos())
 				continue
 			}
-			verdict, detail = "bad", "returns a comparison that is not activeSwaps[id].Data.PeerNodeId == sender at "+w.Pos(r.Pos())
+			// positively wrong: the sender is compared with another field of the swap data
+			wrong := false
+			for _, pr := range [][2]ssa.Value{{y.X, y.Y}, {y.Y, y.X}} {
+				if c09Strip(pr[0]) != ssa.Value(fn.Params[si]) {
+					continue
+				}
+				if u, isLoad := c09Strip(pr[1]).(*ssa.UnOp); isLoad && u.Op == token.MUL {
+					if fa, isFA := u.X.(*ssa.FieldAddr); isFA {
+						if n := an.NamedOf(fa.X.Type()); n != nil && n.Obj() == x.tData.Obj() && an.FieldName(fa.X.Type(), fa.Field) != "SwapData.PeerNodeId" {
+							wrong = true
+						}
+					}
+				}
+			}
+			if wrong {
+				verdict, detail = "bad", "returns a comparison that is not activeSwaps[id].Data.PeerNodeId == sender at "+w.Pos(r.Pos())
+			} else if verdict == "ok" {
+				verdict, detail = "unknown", "the comparison returned at "+w.Pos(r.Pos())+" could not be resolved to activeSwaps[id].Data.PeerNodeId == sender"
+			}
 		default:
 			if verdict == "ok" {
 				verdict, detail = "unknown", fmt.Sprintf("result at %s has unsupported shape %T", w.Pos(r.Pos()), v)
@@ -600,14 +843,124 @@ func (x *c09Ctx) checkSenderOracle() {
 		c.Bad("C09.R1", cons, w.Pos(fn.Pos()), "the sender test never returns the comparison of PeerNodeId with the sender")
 	default:
 		c.OK("C09.R1", cons, w.Pos(fn.Pos()), "returns false or activeSwaps[id.String()].Data.PeerNodeId == sender")
-		x.oracles[fn] = c09Oracle{si: si, ii: ii, bi: 0}
+		x.oracles[fn] = c09Oracle{si: si, ii: ii, bi: 0, fv: -1}
 	}
+}
+
+// mentions: value v is computed from target (through calls, comparisons,
+// conversions, phis and once-assigned local cells).
+func (x *c09Ctx) mentions(v ssa.Value, target ssa.Value, depth int, seen map[ssa.Value]bool) bool {
+	if v == nil || depth > 10 || seen[v] {
+		return false
+	}
+	seen[v] = true
+	if v == target {
+		return true
+	}
+	switch y := v.(type) {
+	case *ssa.Call:
+		for _, a := range y.Call.Args {
+			if x.mentions(a, target, depth+1, seen) {
+				return true
+			}
+		}
+		if mc, ok := y.Call.Value.(*ssa.MakeClosure); ok {
+			for _, b := range mc.Bindings {
+				if x.mentions(b, target, depth+1, seen) {
+					return true
+				}
+			}
+		}
+	case *ssa.Extract:
+		return x.mentions(y.Tuple, target, depth+1, seen)
+	case *ssa.BinOp:
+		return x.mentions(y.X, target, depth+1, seen) || x.mentions(y.Y, target, depth+1, seen)
+	case *ssa.UnOp:
+		if al, ok := y.X.(*ssa.Alloc); ok && y.Op == token.MUL {
+			return x.mentions(al, target, depth+1, seen)
+		}
+		return x.mentions(y.X, target, depth+1, seen)
+	case *ssa.Alloc:
+		if y.Referrers() != nil {
+			for _, r := range *y.Referrers() {
+				if st, ok := r.(*ssa.Store); ok && st.Addr == ssa.Value(y) && x.mentions(st.Val, target, depth+1, seen) {
+					return true
+				}
+			}
+		}
+	case *ssa.Phi:
+		for _, e := range y.Edges {
+			if x.mentions(e, target, depth+1, seen) {
+				return true
+			}
+		}
+	case *ssa.ChangeType:
+		return x.mentions(y.X, target, depth+1, seen)
+	case *ssa.Convert:
+		return x.mentions(y.X, target, depth+1, seen)
+	case *ssa.MakeInterface:
+		return x.mentions(y.X, target, depth+1, seen)
+	case *ssa.FieldAddr:
+		return x.mentions(y.X, target, depth+1, seen)
+	}
+	return false
+}
+
+// peerConditioned: on the path to instruction at (in frame fr and the frames
+// above it) some branch condition that is not the result of a verified sender
+// test is computed from the peer id: an uninterpreted test may be guarding.
+func (x *c09Ctx) peerConditioned(fr *c09Frame, peer ssa.Value, at *ssa.BasicBlock) string {
+	for f := fr; f != nil; f = f.parent {
+		// the values that denote the peer in this frame
+		targets := []ssa.Value{}
+		if f.parent == nil {
+			targets = append(targets, peer)
+		}
+		for p, o := range f.bind {
+			if o.Root == peer && o.Chain == "" && !o.Str {
+				targets = append(targets, p)
+			}
+		}
+		for _, fact := range x.w.FactsDominatingBlock(at) {
+			if fact.Cond == nil {
+				continue
+			}
+			// results of verified oracles are interpreted exactly (only their passing edge counts)
+			if x.fromOracleCall(fact.Cond) {
+				continue
+			}
+			for _, t := range targets {
+				if x.mentions(fact.Cond, t, 0, map[ssa.Value]bool{}) {
+					return "the branch condition at " + x.w.Pos(fact.Cond.Pos()) + " in " + x.fname(f.fn) + " depends on the peer id but is not a recognised sender test"
+				}
+			}
+		}
+		if f.site != nil {
+			at = f.site.Block()
+		}
+	}
+	return ""
+}
+
+func (x *c09Ctx) fromOracleCall(v ssa.Value) bool {
+	switch y := v.(type) {
+	case *ssa.Call:
+		_, ok := x.oracles[y.Common().StaticCallee()]
+		return ok
+	case *ssa.Extract:
+		return x.fromOracleCall(y.Tuple)
+	case *ssa.BinOp:
+		return x.fromOracleCall(y.X) || x.fromOracleCall(y.Y)
+	case *ssa.UnOp:
+		return x.fromOracleCall(y.X)
+	}
+	return false
 }
 
 // sigOf: g has exactly one plain string parameter and one *SwapId parameter
 // (besides the receiver) and a bool or error result.
 func (x *c09Ctx) sigOf(g *ssa.Function) (c09Oracle, bool) {
-	o := c09Oracle{si: -1, ii: -1, bi: -1}
+	o := c09Oracle{si: -1, ii: -1, bi: -1, fv: -1}
 	for i, p := range g.Params {
 		if i == 0 && g.Signature.Recv() != nil {
 			continue
@@ -625,7 +978,20 @@ func (x *c09Ctx) sigOf(g *ssa.Function) (c09Oracle, bool) {
 			o.ii = i
 		}
 	}
-	if o.si < 0 || o.ii < 0 {
+	if o.si < 0 && g.Parent() != nil {
+		// a closure: the sender may be a captured string variable
+		for i, fvv := range g.FreeVars {
+			if pt, ok := fvv.Type().(*types.Pointer); ok {
+				if b, ok := pt.Elem().(*types.Basic); ok && b.Kind() == types.String {
+					if o.fv >= 0 {
+						return o, false
+					}
+					o.fv = i
+				}
+			}
+		}
+	}
+	if (o.si < 0 && o.fv < 0) || o.ii < 0 {
 		return o, false
 	}
 	res := g.Signature.Results()
@@ -647,7 +1013,7 @@ func (x *c09Ctx) sigOf(g *ssa.Function) (c09Oracle, bool) {
 func (x *c09Ctx) deriveOracles() {
 	var cands []*ssa.Function
 	for _, g := range prodFuncs(x.w) {
-		if x.w.FnRel(g) != "swap" || g == x.root || g.Parent() != nil {
+		if x.w.FnRel(g) != "swap" || g == x.root {
 			continue
 		}
 		if _, ok := x.sigOf(g); ok {
@@ -661,7 +1027,7 @@ func (x *c09Ctx) deriveOracles() {
 			}
 			o, _ := x.sigOf(g)
 			fr := &c09Frame{fn: g}
-			peer := g.Params[o.si]
+			peer := o.peerIn(g)
 			good, all := 0, true
 			for _, r := range an.Returns(g) {
 				if o.bi >= 0 {
@@ -673,7 +1039,7 @@ func (x *c09Ctx) deriveOracles() {
 					if ex, isEx := v.(*ssa.Extract); isEx {
 						if k, isCall := ex.Tuple.(*ssa.Call); isCall {
 							if ko, isO := x.oracles[k.Common().StaticCallee()]; isO && ko.bi == ex.Index &&
-								c09Strip(k.Call.Args[ko.si]) == ssa.Value(peer) && c09Strip(k.Call.Args[ko.ii]) == ssa.Value(g.Params[o.ii]) {
+								x.peerArgIs(fr, peer, k, ko) && c09Strip(k.Call.Args[ko.ii]) == ssa.Value(g.Params[o.ii]) {
 								good++
 								continue
 							}
@@ -771,13 +1137,33 @@ func (x *c09Ctx) classCall(k *ssa.Call, idx int, depth int) string {
 
 // ---- R1/R2: the walk ---------------------------------------------------------------
 
-func (x *c09Ctx) isPeer(fr *c09Frame, peer *ssa.Parameter, v ssa.Value) bool {
+func (x *c09Ctx) isPeer(fr *c09Frame, peer ssa.Value, v ssa.Value) bool {
 	o, ok := x.resolve(fr, v)
-	return ok && o.Root == ssa.Value(peer) && o.Chain == "" && !o.Str
+	return ok && o.Root == peer && o.Chain == "" && !o.Str
+}
+
+// peerArgIs: the sender that call k hands to oracle o is the peer.
+func (x *c09Ctx) peerArgIs(fr *c09Frame, peer ssa.Value, k *ssa.Call, o c09Oracle) bool {
+	if o.si >= 0 {
+		return o.si < len(k.Call.Args) && x.isPeer(fr, peer, k.Call.Args[o.si])
+	}
+	mc, ok := k.Call.Value.(*ssa.MakeClosure)
+	if !ok || o.fv >= len(mc.Bindings) {
+		return false
+	}
+	switch b := mc.Bindings[o.fv].(type) {
+	case *ssa.Alloc: // the cell of the captured variable
+		if c09AllocStores(b) == 1 {
+			return x.isPeer(fr, peer, c09AllocStored(b))
+		}
+	case *ssa.FreeVar: // a closure inside a closure passes the cell on
+		return ssa.Value(b) == peer
+	}
+	return false
 }
 
 // guardAt looks for a sender test whose passing edge dominates instruction at.
-func (x *c09Ctx) guardAt(fr *c09Frame, peer *ssa.Parameter, at ssa.Instruction) *c09Guard {
+func (x *c09Ctx) guardAt(fr *c09Frame, peer ssa.Value, at ssa.Instruction) *c09Guard {
 	fn := fr.fn
 	for _, ci := range an.Calls(fn) {
 		k, ok := ci.(*ssa.Call)
@@ -785,7 +1171,7 @@ func (x *c09Ctx) guardAt(fr *c09Frame, peer *ssa.Parameter, at ssa.Instruction) 
 			continue
 		}
 		o, isO := x.oracles[k.Common().StaticCallee()]
-		if !isO || !x.isPeer(fr, peer, k.Call.Args[o.si]) {
+		if !isO || !x.peerArgIs(fr, peer, k, o) {
 			continue
 		}
 		var pass []an.Edge
@@ -820,6 +1206,39 @@ func (x *c09Ctx) guardAt(fr *c09Frame, peer *ssa.Parameter, at ssa.Instruction) 
 			}
 			if o, call, ok := x.machineKey(fr, m); ok {
 				return &c09Guard{id: o, desc: "PeerNodeId == peer", call: call}
+			}
+		}
+	}
+	// a function of (sender, id) that is given the peer and whose passing result
+	// dominates, but which could not be verified to be a sender test
+	for _, ci := range an.Calls(fn) {
+		k, ok := ci.(*ssa.Call)
+		if !ok {
+			continue
+		}
+		g := k.Common().StaticCallee()
+		if g == nil || !x.w.InModule(g) || g.Blocks == nil {
+			continue
+		}
+		if _, isO := x.oracles[g]; isO {
+			continue
+		}
+		o, ok := x.sigOf(g)
+		if !ok || !x.peerArgIs(fr, peer, k, o) {
+			continue
+		}
+		var pass []an.Edge
+		if o.bi >= 0 {
+			for _, rv := range an.ResultValues(k, o.bi) {
+				te, _ := an.BoolEdges(rv)
+				pass = append(pass, te...)
+			}
+		} else {
+			pass, _ = an.OkEdges(k)
+		}
+		for _, e := range pass {
+			if an.EdgeDominates(e, at.Block()) {
+				return &c09Guard{unsure: x.fname(g) + " (given the peer and an id) passed, but it could not be verified to compare activeSwaps[id].Data.PeerNodeId with the sender"}
 			}
 		}
 	}
@@ -864,6 +1283,19 @@ func (x *c09Ctx) lockedHere(fn *ssa.Function, m ssa.Value) bool {
 	return false
 }
 
+// lockedIn: lockedHere, also when the machine was handed in by the caller that locked it in.
+func (x *c09Ctx) lockedIn(fr *c09Frame, m ssa.Value) bool {
+	if x.lockedHere(fr.fn, m) {
+		return true
+	}
+	if p, isP := c09Strip(m).(*ssa.Parameter); isP && fr.parent != nil && fr.site != nil && p.Parent() == fr.fn {
+		if i := c09ParamIndex(p); i >= 0 && i < len(fr.site.Common().Args) {
+			return x.lockedIn(fr.parent, fr.site.Common().Args[i])
+		}
+	}
+	return false
+}
+
 func c09EventOf(call ssa.CallInstruction) string {
 	args := call.Common().Args
 	if len(args) >= 2 {
@@ -874,7 +1306,7 @@ func c09EventOf(call ssa.CallInstruction) string {
 	return "?"
 }
 
-func (x *c09Ctx) walk(fr *c09Frame, peer *ssa.Parameter, g *c09Guard, onPath map[*ssa.Function]bool) {
+func (x *c09Ctx) walk(fr *c09Frame, peer ssa.Value, g *c09Guard, onPath map[*ssa.Function]bool) {
 	c, w := x.c, x.w
 	fn := fr.fn
 	if onPath[fn] {
@@ -909,19 +1341,28 @@ func (x *c09Ctx) walk(fr *c09Frame, peer *ssa.Parameter, g *c09Guard, onPath map
 		if callee == x.sendEvent || callee == x.recoverFn {
 			recv := ci.Common().Args[0]
 			cons := fmt.Sprintf("%s %s(%s)", x.fname(fn), callee.Name(), c09EventOf(ci))
-			if x.lockedHere(fn, recv) {
-				continue // a machine created and locked in by this function: R3 / C10.R1
+			if x.lockedIn(fr, recv) {
+				continue // a machine created and locked in by this function (or its caller): R3 / C10.R1
 			}
 			gg := g
 			if gg == nil {
 				gg = x.guardAt(fr, peer, ci)
-				if gg != nil {
+				if gg != nil && gg.unsure == "" {
 					x.guardedSites++
 					c.OK("C09.R1", cons, w.Pos(ci.Pos()), "dominated by "+gg.desc)
 				}
 			}
+			if gg != nil && gg.unsure != "" {
+				x.unguarded++
+				c.Unknown("C09.R1", cons, w.Pos(ci.Pos()), gg.unsure)
+				continue
+			}
 			if gg == nil {
 				x.unguarded++
+				if why := x.peerConditioned(fr, peer, ci.Block()); why != "" {
+					c.Unknown("C09.R1", cons, w.Pos(ci.Pos()), "no recognised sender test dominates this event, but "+why)
+					continue
+				}
 				c.Bad("C09.R1", cons, w.Pos(ci.Pos()), "an event is delivered to an existing swap on a path from OnMessageReceived that does not pass the sender test: any peer that knows (or guesses) the swap id moves the swap. Path: "+x.path(fr))
 				continue
 			}
@@ -953,7 +1394,7 @@ func (x *c09Ctx) walk(fr *c09Frame, peer *ssa.Parameter, g *c09Guard, onPath map
 		gg := g
 		if gg == nil && sends {
 			gg = x.guardAt(fr, peer, ci)
-			if gg != nil {
+			if gg != nil && gg.unsure == "" {
 				x.guardedSites++
 				c.OK("C09.R1", x.fname(fn)+" -> "+x.fname(callee), w.Pos(ci.Pos()), "dispatch dominated by "+gg.desc)
 			}
@@ -1018,6 +1459,19 @@ type c09Test struct {
 // something else, -1 = cannot tell.
 func (x *c09Ctx) idLike(v ssa.Value) int {
 	v = c09Strip(v)
+	if x.isPtrTo(v.Type(), x.tId) {
+		switch y := v.(type) {
+		case *ssa.Parameter:
+			return 1
+		case *ssa.UnOp:
+			if _, ok := y.X.(*ssa.FieldAddr); ok && y.Op == token.MUL {
+				return 1
+			}
+		case *ssa.Phi:
+			return -1
+		}
+		return 0
+	}
 	call, ok := v.(*ssa.Call)
 	if !ok {
 		if _, isPhi := v.(*ssa.Phi); isPhi {
@@ -1069,6 +1523,7 @@ func (x *c09Ctx) testsOf(fn *ssa.Function, kind string, keyOK func(ssa.Value) in
 		sentinel = x.errNoSwap
 	}
 	addCond := func(cond ssa.Value, trueMeansMay bool, desc string) {
+		x.condVals[kind][cond] = trueMeansMay
 		for _, ce := range an.CondUses(cond) {
 			if trueMeansMay {
 				tests = append(tests, c09Test{may: ce.True, not: ce.False, desc: desc})
@@ -1099,6 +1554,7 @@ func (x *c09Ctx) testsOf(fn *ssa.Function, kind string, keyOK func(ssa.Value) in
 				}
 			case *ssa.Call:
 				if w.Info(y).Name == "func:errors.Is" && len(y.Call.Args) == 2 && c09Strip(y.Call.Args[0]) == ev && c09IsGlobalLoad(y.Call.Args[1], sentinel) {
+					x.condVals[kind][y] = false
 					te, fe := an.BoolEdges(y)
 					for i := range te {
 						if i < len(fe) {
@@ -1140,6 +1596,19 @@ func (x *c09Ctx) testsOf(fn *ssa.Function, kind string, keyOK func(ssa.Value) in
 						key, name = k.Call.Args[ki], x.fname(ci.Static)
 					}
 				}
+				if key == nil && ci.Static != nil {
+					if pr := x.existPred(ci.Static, kind); pr.ok && pr.pi < len(k.Call.Args) {
+						switch keyOK(k.Call.Args[pr.pi]) {
+						case 1:
+							for _, bv := range an.ResultValues(k, pr.bi) {
+								addCond(bv, pr.may, x.fname(ci.Static)+" says the id may be known")
+							}
+						case -1:
+							unknown = append(unknown, c09Unk{x.fname(ci.Static) + " at " + w.Pos(k.Pos()) + ": cannot tell whether the argument is the requested id", b})
+						}
+						continue
+					}
+				}
 				if key == nil {
 					// a helper that hides an oracle: cannot be judged
 					if ci.Static != nil && w.InModule(ci.Static) && ci.Static != x.lockSwap && ci.Static != x.sendEvent && ci.Static != x.recoverFn && !x.isOracle(ci.Static) && !x.reachesSend(ci.Static) {
@@ -1156,6 +1625,7 @@ func (x *c09Ctx) testsOf(fn *ssa.Function, kind string, keyOK func(ssa.Value) in
 					unknown = append(unknown, c09Unk{name + " at " + w.Pos(k.Pos()) + ": cannot tell whether the key is the requested id (" + w.Term(key) + ")", b})
 					continue
 				}
+				t0, c0 := len(tests), len(x.condVals[kind])
 				if ei := an.ErrResultIndex(k); ei >= 0 {
 					for _, ev := range an.ResultValues(k, ei) {
 						fromErr(ev, name)
@@ -1164,6 +1634,24 @@ func (x *c09Ctx) testsOf(fn *ssa.Function, kind string, keyOK func(ssa.Value) in
 				for _, pv := range an.ResultValues(k, 0) {
 					if _, isPtr := pv.Type().(*types.Pointer); isPtr {
 						fromPtr(pv, name)
+					}
+				}
+				if len(tests) == t0 && len(x.condVals[kind]) == c0 {
+					// the answer of the oracle is used, but not in a way that is understood
+					used := false
+					if k.Referrers() != nil {
+						for _, r := range *k.Referrers() {
+							if ex, isEx := r.(*ssa.Extract); isEx {
+								if ex.Referrers() != nil && len(*ex.Referrers()) > 0 {
+									used = true
+								}
+							} else if _, isDbg := r.(*ssa.DebugRef); !isDbg {
+								used = true
+							}
+						}
+					}
+					if used {
+						unknown = append(unknown, c09Unk{"the answer of " + name + " at " + w.Pos(k.Pos()) + " is used in a way that is not understood (no nil / sentinel / errors.Is test found)", b})
 					}
 				}
 			case *ssa.Lookup:
@@ -1190,6 +1678,7 @@ func (x *c09Ctx) testsOf(fn *ssa.Function, kind string, keyOK func(ssa.Value) in
 						continue
 					}
 					if ex.Index == 1 {
+						x.condVals[kind][ex] = true
 						te, fe := an.BoolEdges(ex)
 						for i := range te {
 							if i < len(fe) {
@@ -1204,6 +1693,134 @@ func (x *c09Ctx) testsOf(fn *ssa.Function, kind string, keyOK func(ssa.Value) in
 		}
 	}
 	return
+}
+
+// existPred recognises a boolean existence predicate: a module function with one
+// id parameter (*SwapId, else one string) and a bool result that is computed
+// from tests of the kind's oracle keyed by that parameter, such that the result
+// says "may be known" (or its negation) on every return.
+func (x *c09Ctx) existPred(g *ssa.Function, kind string) *c09Pred {
+	if pr, done := x.preds[kind][g]; done {
+		return pr
+	}
+	pr := &c09Pred{pi: -1, bi: -1}
+	x.preds[kind][g] = pr // also stops recursion
+	if g == nil || !x.w.InModule(g) || g.Blocks == nil || g == x.lockSwap || g == x.sendEvent || g == x.recoverFn {
+		return pr
+	}
+	if _, isL := x.lookupFns[g]; isL {
+		return pr
+	}
+	res := g.Signature.Results()
+	for i := 0; i < res.Len(); i++ {
+		if b, ok := res.At(i).Type().(*types.Basic); ok && b.Kind() == types.Bool && pr.bi < 0 {
+			pr.bi = i
+		}
+	}
+	nId, nStr, idI, strI := 0, 0, -1, -1
+	for i, p := range g.Params {
+		if i == 0 && g.Signature.Recv() != nil {
+			continue
+		}
+		if x.isPtrTo(p.Type(), x.tId) {
+			nId++
+			idI = i
+		} else if b, ok := p.Type().(*types.Basic); ok && b.Kind() == types.String {
+			nStr++
+			strI = i
+		}
+	}
+	switch {
+	case nId == 1:
+		pr.pi = idI
+	case nId == 0 && nStr == 1:
+		pr.pi = strI
+	}
+	if pr.bi < 0 || pr.pi < 0 {
+		return pr
+	}
+	idp := g.Params[pr.pi]
+	tests, _ := x.testsOf(g, kind, func(v ssa.Value) int {
+		if o, ok := x.origin(v); ok && o.Root == ssa.Value(idp) && o.Chain == "" {
+			return 1
+		}
+		return 0
+	})
+	conds := x.condVals[kind]
+	type item struct {
+		v   ssa.Value
+		blk *ssa.BasicBlock
+	}
+	var items []item
+	var expand func(v ssa.Value, blk *ssa.BasicBlock, depth int)
+	expand = func(v ssa.Value, blk *ssa.BasicBlock, depth int) {
+		if ph, ok := v.(*ssa.Phi); ok && depth < 4 {
+			for i, e := range ph.Edges {
+				expand(e, ph.Block().Preds[i], depth+1)
+			}
+			return
+		}
+		items = append(items, item{v, blk})
+	}
+	for _, r := range an.Returns(g) {
+		if pr.bi >= len(r.Results) {
+			return pr
+		}
+		expand(r.Results[pr.bi], r.Block(), 0)
+	}
+	covered := func(blk *ssa.BasicBlock) bool {
+		for _, t := range tests {
+			if c09Covers(t, blk) {
+				return true
+			}
+		}
+		return false
+	}
+	mayOK, freeOK, n := true, true, 0
+	for _, it := range items {
+		v, neg := it.v, false
+		for {
+			u, isNot := v.(*ssa.UnOp)
+			if !isNot || u.Op != token.NOT {
+				break
+			}
+			neg = !neg
+			v = u.X
+		}
+		if tm, ok := conds[v]; ok {
+			n++
+			if tm != neg { // true means may
+				freeOK = false
+			} else {
+				mayOK = false
+			}
+			continue
+		}
+		cst, isC := v.(*ssa.Const)
+		if !isC || cst.Value == nil {
+			return pr
+		}
+		val := (cst.Value.String() == "true") != neg
+		// a constant answer "not known" must lie behind the not-known edge of a test
+		if val {
+			if !covered(it.blk) {
+				freeOK = false
+			}
+		} else if !covered(it.blk) {
+			mayOK = false
+		}
+		if covered(it.blk) {
+			n++
+		}
+	}
+	switch {
+	case n == 0:
+	case mayOK:
+		pr.ok, pr.may = true, true
+	case freeOK:
+		pr.ok, pr.may = true, false
+	}
+	return pr
 }
 
 func (x *c09Ctx) isOracle(g *ssa.Function) bool {
@@ -1459,45 +2076,7 @@ func (x *c09Ctx) ruleR4() {
 		c.Anchor("getNextState does not look its event parameter up in a swap.Events map")
 		return
 	}
-	// EventIsValid counts as acceptance only if it can return true solely behind
-	// the success edge of getNextState(its event parameter) on its receiver
-	if ev := x.eventValid; ev != nil && ev.Blocks != nil {
-		sound := false
-		for _, ci := range an.Calls(ev) {
-			k, ok := ci.(*ssa.Call)
-			if !ok || k.Common().StaticCallee() != x.getNext || len(k.Call.Args) < 2 || len(ev.Params) < 2 {
-				continue
-			}
-			if c09Strip(k.Call.Args[0]) != ssa.Value(ev.Params[0]) || c09Strip(k.Call.Args[1]) != ssa.Value(ev.Params[1]) {
-				continue
-			}
-			okE, _ := an.OkEdges(k)
-			sound = true
-			for _, r := range an.Returns(ev) {
-				if len(r.Results) != 1 {
-					sound = false
-					continue
-				}
-				if cst, isC := c09Strip(r.Results[0]).(*ssa.Const); isC && cst.Value != nil && cst.Value.String() == "false" {
-					continue
-				}
-				dom := false
-				for _, e := range okE {
-					if an.EdgeDominates(e, r.Block()) {
-						dom = true
-					}
-				}
-				if !dom {
-					sound = false
-				}
-			}
-		}
-		if !sound {
-			x.eventValid = nil
-		}
-	} else {
-		x.eventValid = nil
-	}
+	x.findAcceptFns()
 	for _, site := range sites {
 		fn := site.Parent()
 		cons := x.fname(fn) + " ApplyToSwapData"
@@ -1513,61 +2092,14 @@ func (x *c09Ctx) ruleR4() {
 			c.Unknown("C09.R4", cons, pos, "the argument of ApplyToSwapData is not <machine>.Data")
 			continue
 		}
-		// the event delivered together with this context: the EventType parameter of the function
-		var evParam *ssa.Parameter
-		for _, p := range fn.Params {
-			if n, ok := p.Type().(*types.Named); ok && n.Obj().Name() == "EventType" {
-				if evParam != nil {
-					evParam = nil
-					break
-				}
-				evParam = p
-			}
-		}
-		if evParam == nil {
-			c.Unknown("C09.R4", cons, pos, "the enclosing function has no single EventType parameter")
-			continue
-		}
-		isEv := func(v ssa.Value) bool {
-			v = c09Strip(v)
-			if v == ssa.Value(evParam) {
-				return true
-			}
-			if ph, ok := v.(*ssa.Phi); ok {
-				for _, e := range ph.Edges {
-					if c09Strip(e) == ssa.Value(evParam) {
-						return true
-					}
-				}
-			}
-			return false
-		}
+		verdict, how, seen := x.acceptedAt(fn, site.Block(), machine, 0)
 		accepted := ""
-		var seen []string
-		for _, ci := range an.Calls(fn) {
-			k, ok := ci.(*ssa.Call)
-			if !ok {
-				continue
-			}
-			g := k.Common().StaticCallee()
-			if g == nil || (g != x.getNext && (x.eventValid == nil || g != x.eventValid)) || len(k.Call.Args) < 2 {
-				continue
-			}
-			if c09Strip(k.Call.Args[0]) != machine || !isEv(k.Call.Args[1]) {
-				continue
-			}
-			var okEdges []an.Edge
-			if g == x.getNext {
-				okEdges, _ = an.OkEdges(k)
-			} else {
-				okEdges, _ = an.BoolEdges(k)
-			}
-			seen = append(seen, g.Name()+" at "+w.Pos(k.Pos()))
-			for _, e := range okEdges {
-				if an.EdgeDominates(e, site.Block()) {
-					accepted = g.Name() + " succeeded"
-				}
-			}
+		switch verdict {
+		case "ok":
+			accepted = how
+		case "unknown":
+			c.Unknown("C09.R4", cons, pos, how)
+			continue
 		}
 		if accepted != "" {
 			c.OK("C09.R4", cons, pos, "dominated by: "+accepted)
@@ -1601,6 +2133,209 @@ func (x *c09Ctx) ruleR4() {
 		}
 		c.Bad("C09.R4", cons, pos, "the message is applied to the swap data"+persisted+" before the state machine decided whether the event is acceptable in the current state ("+later+"). History: the counterparty sends opening_tx_broadcasted (or coop_close / an agreement) while the swap is in a state that does not accept it; the event is rejected but the message content stays in SwapData and in the store, and the legitimate later message fails with AlreadyExistsError; a cancel message overwrites SwapData.Cancel in any state")
 	}
+}
+
+// findAcceptFns: getNextState plus every method of the state machine with one
+// EventType parameter all of whose success returns (true / nil error) lie behind
+// the success edge of an acceptance function applied to (its receiver, its
+// event parameter) — e.g. EventIsValid.
+func (x *c09Ctx) findAcceptFns() {
+	x.acceptFns = map[*ssa.Function]bool{x.getNext: true}
+	for round := 0; round < 3; round++ {
+		for _, g := range prodFuncs(x.w) {
+			if x.acceptFns[g] || x.w.FnRel(g) != "swap" || g.Signature.Recv() == nil || len(g.Params) != 2 || !x.isPtrTo(g.Params[0].Type(), x.tSM) {
+				continue
+			}
+			if n, ok := g.Params[1].Type().(*types.Named); !ok || n.Obj().Name() != "EventType" {
+				continue
+			}
+			res := g.Signature.Results()
+			bi, hasErr := -1, false
+			for i := 0; i < res.Len(); i++ {
+				if b, ok := res.At(i).Type().(*types.Basic); ok && b.Kind() == types.Bool && bi < 0 {
+					bi = i
+				}
+				if an.IsErrorType(res.At(i).Type()) {
+					hasErr = true
+				}
+			}
+			if bi < 0 && !hasErr {
+				continue
+			}
+			var pass []an.Edge
+			for _, ci := range an.Calls(g) {
+				k, ok := ci.(*ssa.Call)
+				if !ok || !x.acceptFns[k.Common().StaticCallee()] || len(k.Call.Args) < 2 {
+					continue
+				}
+				if c09Strip(k.Call.Args[0]) != ssa.Value(g.Params[0]) || c09Strip(k.Call.Args[1]) != ssa.Value(g.Params[1]) {
+					continue
+				}
+				pass = append(pass, x.acceptEdges(k)...)
+			}
+			if len(pass) == 0 {
+				continue
+			}
+			sound, good := true, 0
+			for _, r := range an.Returns(g) {
+				if bi >= 0 {
+					if cst, isC := c09Strip(r.Results[bi]).(*ssa.Const); isC && cst.Value != nil && cst.Value.String() == "false" {
+						continue
+					}
+				} else if x.retErr(r) == "nonnil" {
+					continue
+				}
+				dom := false
+				for _, e := range pass {
+					if an.EdgeDominates(e, r.Block()) {
+						dom = true
+					}
+				}
+				if dom {
+					good++
+				} else {
+					sound = false
+				}
+			}
+			if sound && good > 0 {
+				x.acceptFns[g] = true
+			}
+		}
+	}
+}
+
+// acceptEdges: the edges on which acceptance call k succeeded.
+func (x *c09Ctx) acceptEdges(k *ssa.Call) []an.Edge {
+	res := k.Common().Signature().Results()
+	for i := 0; i < res.Len(); i++ {
+		if b, ok := res.At(i).Type().(*types.Basic); ok && b.Kind() == types.Bool {
+			var out []an.Edge
+			for _, rv := range an.ResultValues(k, i) {
+				te, _ := an.BoolEdges(rv)
+				out = append(out, te...)
+			}
+			return out
+		}
+	}
+	okE, _ := an.OkEdges(k)
+	return okE
+}
+
+// acceptedAt decides whether block at of fn executes only after the next-state
+// lookup for the delivered event succeeded on machine. The event is fn's
+// EventType parameter. When fn itself has no dominating lookup and the machine
+// is one of its parameters (a wrapper around the apply), its production callers
+// are examined at their call sites. Verdicts: "ok", "bad", "unknown".
+func (x *c09Ctx) acceptedAt(fn *ssa.Function, at *ssa.BasicBlock, machine ssa.Value, depth int) (verdict, how string, seen []string) {
+	w := x.w
+	var evParam *ssa.Parameter
+	nEv := 0
+	for _, p := range fn.Params {
+		if n, ok := p.Type().(*types.Named); ok && n.Obj().Name() == "EventType" {
+			nEv++
+			evParam = p
+		}
+	}
+	if nEv != 1 {
+		evParam = nil
+	}
+	unsure := ""
+	if evParam != nil {
+		isEv := func(v ssa.Value) bool {
+			v = c09Strip(v)
+			if v == ssa.Value(evParam) {
+				return true
+			}
+			if ph, ok := v.(*ssa.Phi); ok {
+				for _, e := range ph.Edges {
+					if c09Strip(e) == ssa.Value(evParam) {
+						return true
+					}
+				}
+			}
+			return false
+		}
+		for _, ci := range an.Calls(fn) {
+			k, ok := ci.(*ssa.Call)
+			if !ok {
+				continue
+			}
+			g := k.Common().StaticCallee()
+			if g == nil || len(k.Call.Args) < 2 || c09Strip(k.Call.Args[0]) != machine || !isEv(k.Call.Args[1]) {
+				continue
+			}
+			if !x.acceptFns[g] {
+				// something is asked about (machine, event) whose meaning is not known
+				if x.w.InModule(g) && g != x.sendEvent && g != x.recoverFn {
+					for _, e := range x.acceptEdges(k) {
+						if an.EdgeDominates(e, at) {
+							unsure = x.fname(g) + " at " + w.Pos(k.Pos()) + " is asked about the machine and the event before the context is applied, but it could not be verified to be the next-state lookup"
+						}
+					}
+				}
+				continue
+			}
+			okEdges := x.acceptEdges(k)
+			seen = append(seen, g.Name()+" at "+w.Pos(k.Pos()))
+			for _, e := range okEdges {
+				if an.EdgeDominates(e, at) {
+					return "ok", g.Name() + " succeeded (in " + x.fname(fn) + ")", seen
+				}
+			}
+		}
+	}
+	// lift to the callers when the machine is handed in
+	mp, isP := machine.(*ssa.Parameter)
+	if unsure != "" {
+		return "unknown", unsure, seen
+	}
+	if !isP || mp.Parent() != fn || depth >= 3 {
+		if evParam != nil {
+			return "bad", "", seen
+		}
+		return "unknown", x.fname(fn) + " has no single EventType parameter and the machine is not one of its parameters", seen
+	}
+	mi := c09ParamIndex(mp)
+	n := 0
+	allOK := true
+	unk := ""
+	for _, caller := range prodFuncs(w) {
+		for _, ci := range an.Calls(caller) {
+			if ci.Common().StaticCallee() != fn {
+				continue
+			}
+			if _, isGo := ci.(*ssa.Go); isGo || mi >= len(ci.Common().Args) {
+				allOK, unk = false, "called asynchronously from "+x.fname(caller)
+				continue
+			}
+			n++
+			v, h, sn := x.acceptedAt(caller, ci.Block(), c09Strip(ci.Common().Args[mi]), depth+1)
+			seen = append(seen, sn...)
+			switch v {
+			case "ok":
+				how = h
+			case "unknown":
+				allOK = false
+				if unk == "" {
+					unk = h
+				}
+			default:
+				allOK = false
+			}
+		}
+	}
+	switch {
+	case n > 0 && allOK:
+		return "ok", how + ", at every call of " + x.fname(fn), seen
+	case evParam != nil:
+		// this function knows the event and the machine and does not ask; neither do all its callers
+		return "bad", "", seen
+	case n == 0:
+		return "unknown", x.fname(fn) + " has no EventType parameter and no static production caller", seen
+	case unk != "":
+		return "unknown", unk, seen
+	}
+	return "bad", "", seen
 }
 
 // ---- R5 -----------------------------------------------------------------------------
